@@ -55,8 +55,54 @@ def cells(tier, seed):
     for i in range(n):
         out.append({"k": "hash", "first": i})
     for i in range(n):
-        out.append({"k": "sets", "first": i, "n": bounds(tier)["set_elements"]})
+        if bounds(tier)["set_elements"] <= 3:
+            out.append({"k": "sets", "first": i, "n": 3})
+        else:
+            for j in range(n):
+                out.append({"k": "sets", "first": i, "second": j, "n": 4})
+    for h in range(len(MUT_HASH)):
+        out.append({"k": "mutate", "hash": h})
     return out
+
+
+# a list is hashed, then changed in place, then used as element / key again
+MUT_HASH = ["l in <<[0]>>", "<<l>>", "put(<<<>>>, l, 1)", "[l] in <<[[0]]>>", "put(<<<>>>, l, 1)[l]", "l in put(<<<>>>, [0], 1)", "0"]
+MUT_OPS = ["l[0] = v", "l[1][0] = v", "append(l[1], v)", "append(l, v)", "delete_at(l, 0)", "l[1] = [v]",
+           "insert_at(l, 0, v)", "l[-1] = v", "remove(l[1], b)", "l !> append(v)", "def inner = l[1]; inner[0] = v"]
+
+
+def deep(v):
+    if isinstance(v, V.ValueList):
+        return vlist([deep(x) for x in v.value])
+    return v
+
+
+def run_mutate(ctx, cell):
+    ctx.reach("sets")
+    small = [vint(0), vint(1), vdec(1.0), vstr("a"), vint(9)]
+    a = small[ctx.choice("a", len(small))]
+    b = small[ctx.choice("b", len(small))]
+    v = small[ctx.choice("v", len(small))]
+    mi = ctx.choice("mut", len(MUT_OPS))
+    key = "C06:mutate"
+    env = {"a": a, "b": b, "v": v}
+    prog = "def l = [a, [b]]; %s; %s; l" % (MUT_HASH[cell["hash"]], MUT_OPS[mi])
+    out = run_ckl(prog, env)
+    detail = lambda: {"program": prog, "a": str(a), "b": str(b), "v": str(v)}
+    if out.kind != "ok":
+        ctx.fail("%s:%s:%s" % (key, out.kind, out.hostname() or "runtime-error"), lambda: dict(detail(), exc=str(out.exc)))
+        return out
+    l = out.value
+    c = deep(l)               # a fresh list with the same contents
+    out2 = run_ckl("[l == c, l in <<c>>, c in <<l>>, put(<<<>>>, c, 1)[l, 'missing'], put(<<<>>>, l, 1)[c, 'missing'], "
+                   "length(<<l, c>>), length(set([l, c])), [l] in <<[c]>>, find([c], l)]", {"l": l, "c": c})
+    d2 = lambda: dict(detail(), after=str(l), got=str(out2.value if out2.kind == "ok" else out2.exc))
+    if out2.kind != "ok":
+        ctx.fail("%s:%s:%s" % (key, out2.kind, out2.hostname() or "runtime-error"), d2)
+        return out2
+    ctx.check(str(out2.value) == "[TRUE, TRUE, TRUE, 1, 1, 1, 1, TRUE, 0]", key + ":changed-list-not-interchangeable-with-equal-list", d2)
+    ctx.check(hash(l) == hash(c), key + ":equal-values-hash-differently", d2)
+    return [str(l), str(out2.value)]
 
 
 def mk(ctx, kind, name):
@@ -117,6 +163,8 @@ def run(ctx, cell):
         return run_hash(ctx, cell)
     if k == "sets":
         return run_sets(ctx, cell)
+    if k == "mutate":
+        return run_mutate(ctx, cell)
     raise AssertionError(k)
 
 
@@ -179,7 +227,8 @@ def run_sets(ctx, cell):
     ctx.reach("sets")
     p = pool()
     n = cell["n"]
-    idx = [cell["first"]] + [ctx.choice("e%d" % i, len(p)) for i in range(1, n)]
+    fixed = [cell["first"]] + ([cell["second"]] if "second" in cell else [])
+    idx = fixed + [ctx.choice("e%d" % i, len(p)) for i in range(len(fixed), n)]
     els = [p[i] for i in idx]
     key = "C06:sets"
     detail = lambda: {"elements": [str(e) for e in els]}
